@@ -779,11 +779,46 @@ def check(tier, seed):
         'ensemble: children return equally many rows; mesh: children are one-dimensional; concat: children have equally many '
         'dimensions; resample without replacement: size <= rows drawn (callers\' preconditions, hypotheses of the theorems)',
     ]
+    failing += input_aliasing_checks()
     for f in failing[:3]:
         rep.violation(dict(kind='failing-input', input=f, broken=broken))
     if broken and not failing:
         rep.violation(dict(kind='unproved', broken=broken), found_input=False, name='unproved')
     return rep.finish(checker_cmd='cd lean && lake build NdeVerif.Proofs.C13 && lake env lean --run drivers/C13.lean < scripts')
+
+
+def input_aliasing_checks():
+    """"static and predefined return the same points forever": also when the caller reuses / overwrites the arrays or lists it
+    passed in (array-likes are converted, hence copied, at construction)"""
+    import numpy as np
+    import torch
+    from neurodiffeq import generators as G
+    bad = []
+
+    def flat(out):
+        out = [out] if torch.is_tensor(out) else list(out)
+        return [[float(v) for v in c.detach().reshape(-1)] for c in out]
+    for kind in ('numpy float64', 'numpy float32', 'list'):     # (a torch tensor passed in is documented to be used as is)
+        xs, ys = [0.5, 1.5, 2.5, 3.5], [10.0, 20.0, 30.0, 40.0]
+        mk = {'numpy float64': lambda v: np.array(v, dtype=np.float64), 'numpy float32': lambda v: np.array(v, dtype=np.float32),
+              'torch': lambda v: torch.tensor(v), 'list': lambda v: list(v)}[kind]
+        a, b = mk(xs), mk(ys)
+        try:
+            g = G.PredefinedGenerator(a, b)
+            first = flat(g.get_examples())
+            # the caller reuses its buffers
+            for buf in (a, b):
+                if kind == 'list':
+                    buf[0] = -99.0
+                else:
+                    buf[:] = -99.0
+            second = flat(g.get_examples())
+            if first != [xs, ys] or second != [xs, ys]:
+                bad.append(dict(script=dict(text=f'PredefinedGenerator({kind} inputs), inputs overwritten by the caller after construction'), clause='predefined',
+                                call=1, violated=f'points changed: first {first}, then {second}, expected {[xs, ys]} forever'))
+        except Exception as e:
+            bad.append(dict(script=dict(text=f'PredefinedGenerator({kind} inputs)'), clause='predefined', call=0, violated=f'{type(e).__name__}: {e}'))
+    return bad
 
 
 def replay(path):
